@@ -350,6 +350,11 @@ func detShrink(p *core.Program, c []*ssa.Function) (bool, string) {
 				}
 			}
 			return len(x.Edges) > 0
+		default:
+			// a library function that returns its argument with something cut off is never longer than it
+			if in, isTrim := trimmedOperand(v); isTrim {
+				return shorter(in, d+1)
+			}
 		}
 		return false
 	}
@@ -378,8 +383,27 @@ func shorterOrSame(v ssa.Value, sp *ssa.Parameter, d int) bool {
 			}
 		}
 		return true
+	default:
+		if in, isTrim := trimmedOperand(v); isTrim {
+			return shorterOrSame(in, sp, d+1)
+		}
 	}
 	return false
+}
+
+// trimmedOperand: v is the result of strings.TrimPrefix/TrimSuffix/TrimSpace/Trim*/CutPrefix/CutSuffix (a substring
+// of the first argument); returns that argument.
+func trimmedOperand(v ssa.Value) (ssa.Value, bool) {
+	if ex, ok := v.(*ssa.Extract); ok && ex.Index == 0 {
+		if c, ok := callTo(ex.Tuple, "strings.CutPrefix", "strings.CutSuffix"); ok {
+			return c.Call.Args[0], true
+		}
+		return nil, false
+	}
+	if c, ok := callTo(v, "strings.TrimPrefix", "strings.TrimSuffix", "strings.TrimSpace", "strings.Trim", "strings.TrimLeft", "strings.TrimRight", "strings.TrimFunc"); ok {
+		return c.Call.Args[0], true
+	}
+	return nil, false
 }
 
 // detStructural: every recursive argument is obtained from the parameter through accessor calls of
@@ -505,6 +529,42 @@ func detSizeCap(p *core.Program) (bool, string) {
 			}
 			n++
 			ok1, n1, _ := core.MustPass(fn, c.Block(), func(cond ssa.Value) (bool, bool) {
+				op, x, y, neg, ok := core.Compare(cond)
+				if !ok || neg || op != token.GTR {
+					return false, false
+				}
+				if _, isC := core.ConstInt(y); !isC {
+					return false, false
+				}
+				return sumsTreeSizes(p, x, 0), false
+			})
+			if !(ok1 && n1 > 0) {
+				bad = "composite expression node built from recursive results without the size test in " + core.FuncName(fn)
+			}
+		})
+		// ... or the node is built right here from the recursive results
+		core.InstrsOf(fn, func(in ssa.Instruction) {
+			al, ok := in.(*ssa.Alloc)
+			if !ok || !strings.Contains(al.Type().String(), "SCEVGenericExpr") {
+				return
+			}
+			fromRec := false
+			for _, fld := range []string{"X", "Y"} {
+				if v, has := core.StructLitField(al, fld); has && v != nil {
+					for _, o := range core.Origins(v) {
+						if rc, isCall := o.(*ssa.Call); isCall {
+							if rcallee := core.StaticCallee(&rc.Call); rcallee != nil && builders[rcallee] {
+								fromRec = true
+							}
+						}
+					}
+				}
+			}
+			if !fromRec {
+				return
+			}
+			n++
+			ok1, n1, _ := core.MustPass(fn, al.Block(), func(cond ssa.Value) (bool, bool) {
 				op, x, y, neg, ok := core.Compare(cond)
 				if !ok || neg || op != token.GTR {
 					return false, false
